@@ -339,3 +339,398 @@ Proof.
   by apply (let_dynamic s L d u r s' sifting_ok'_holds).
 Qed.
 End notape.
+
+(** ** 3. Histories with dynamic reordering enabled *)
+
+(** *** read-only computations that raise neither the signal nor the oracle
+    error *)
+Definition quiet {A} (m : MS A) : Prop :=
+  ∀ s r s', m s = (r, s') → s' = s ∧ r ≠ Err ENeedsReordering ∧ r ≠ Err EOracle.
+
+Lemma quiet_ret {A} (a : A) : quiet (ret a).
+Proof. by intros s r s' [= <- <-]. Qed.
+Lemma quiet_raise {A} e : e ≠ ENeedsReordering → e ≠ EOracle → quiet (raise (A:=A) e).
+Proof. intros ? ? s r s' [= <- <-]. split_and!; [done|congruence|congruence]. Qed.
+Lemma quiet_get : quiet (get (S:=st)).
+Proof. by intros s r s' [= <- <-]. Qed.
+Lemma quiet_bind {A B} (m : MS A) (f : A → MS B) :
+  quiet m → (∀ a, quiet (f a)) → quiet (bind m f).
+Proof.
+  intros Hm Hf s r s'. unfold bind. destruct (m s) as [[a|e] s1] eqn:E.
+  - destruct (Hm _ _ _ E) as (->&_). apply Hf.
+  - destruct (Hm _ _ _ E) as (->&H1&H2). intros [= <- <-].
+    split_and!; [done|intros [= ->]; by apply H1|intros [= ->]; by apply H2].
+Qed.
+Lemma quiet_assert b : quiet (assert (S:=st) b).
+Proof. unfold assert. destruct b; [apply quiet_ret|by apply quiet_raise]. Qed.
+Lemma quiet_ensure e b : e ≠ ENeedsReordering → e ≠ EOracle → quiet (ensure (S:=st) e b).
+Proof. intros. unfold ensure. destruct b; [apply quiet_ret|by apply quiet_raise]. Qed.
+Lemma quiet_of_opt {A} e (o : option A) :
+  e ≠ ENeedsReordering → e ≠ EOracle → quiet (of_opt (S:=st) e o).
+Proof. intros. destruct o; [apply quiet_ret|by apply quiet_raise]. Qed.
+Lemma quiet_getsucc n : quiet (getsucc n).
+Proof. intros s r s'. unfold getsucc. destruct (succ s !! n); by intros [= <- <-]. Qed.
+Lemma quiet_getref n : quiet (getref n).
+Proof. intros s r s'. unfold getref. destruct (refc s !! n); by intros [= <- <-]. Qed.
+Lemma quiet_mapM {A B} (f : A → MS B) (l : list A) : (∀ a, quiet (f a)) → quiet (mapM f l).
+Proof.
+  intros Hf. induction l as [|a l IH]; cbn [mapM]; [apply quiet_ret|].
+  apply quiet_bind; [apply Hf|intros b].
+  apply quiet_bind; [done|intros bs; apply quiet_ret].
+Qed.
+Lemma quiet_forM {A} (l : list A) (f : A → MS unit) : (∀ a, quiet (f a)) → quiet (forM l f).
+Proof.
+  intros Hf. induction l as [|a l IH]; cbn [forM]; [apply quiet_ret|].
+  apply quiet_bind; [apply Hf|done].
+Qed.
+
+Ltac quiet_step :=
+  lazymatch goal with
+  | |- quiet (ret _) => apply quiet_ret
+  | |- quiet (raise _) => apply quiet_raise; discriminate
+  | |- quiet get => apply quiet_get
+  | |- quiet (assert _) => apply quiet_assert
+  | |- quiet (ensure _ _) => apply quiet_ensure; discriminate
+  | |- quiet (of_opt _ _) => apply quiet_of_opt; discriminate
+  | |- quiet (getsucc _) => apply quiet_getsucc
+  | |- quiet (getref _) => apply quiet_getref
+  | |- quiet (bind _ _) => apply quiet_bind; [|intros ?]
+  | |- quiet (forM _ _) => apply quiet_forM; intros ?
+  | |- quiet (mapM _ _) => apply quiet_mapM; intros ?
+  | |- quiet (if decide _ then _ else _) => case_decide
+  | |- quiet (if ?b then _ else _) => destruct b
+  | |- quiet (match ?x with _ => _ end) => destruct x
+  | |- quiet (let '(_, _) := ?x in _) => destruct x
+  end.
+Ltac quiet := repeat first [assumption | quiet_step].
+
+Lemma quiet_getsuccZ u : quiet (getsuccZ u).
+Proof. unfold getsuccZ. quiet. Qed.
+Lemma quiet_ref u : quiet (ref u).
+Proof. unfold ref. quiet. Qed.
+Lemma quiet_var_at_level l : quiet (var_at_level l).
+Proof. unfold var_at_level. quiet. Qed.
+Lemma quiet_support_rec fuel : ∀ u acc, quiet (support_rec fuel u acc).
+Proof.
+  induction fuel as [|f IH]; intros u acc; cbn [support_rec]; [by apply quiet_raise|].
+  quiet; apply IH.
+Qed.
+Lemma quiet_support u : quiet (support u).
+Proof.
+  unfold support, support_levels. quiet; [apply quiet_support_rec|apply quiet_var_at_level].
+Qed.
+Lemma quiet_is_essential_rec fuel : ∀ u i, quiet (is_essential_rec fuel u i).
+Proof.
+  induction fuel as [|f IH]; intros u i; cbn [is_essential_rec]; [by apply quiet_raise|].
+  quiet; first [apply quiet_getsuccZ | apply IH].
+Qed.
+Lemma quiet_is_essential u v : quiet (is_essential u v).
+Proof. unfold is_essential. quiet. apply quiet_is_essential_rec. Qed.
+
+(** *** safety of the wrapped bodies for ARBITRARY arguments inside a context
+    or with requests off (the cases of [Total] without [last_len = None]) *)
+Lemma csafe_bind_get {B} (f : st → MS B) :
+  (∀ s r s', Inv s → no_reorder s → f s s = (r, s') → safe s s') →
+  csafe (bind get f).
+Proof. intros H s r s' HI Hl. cbn [bind get]. by apply H. Qed.
+
+Lemma quantify_rec_total_nr s u q fa fuel r s' :
+  Inv s → no_reorder s → nvars s < fuel →
+  quantify_rec fuel u (sorted_levels q) q fa ∅ s = (r, s') → safe s s'.
+Proof.
+  intros HI Hnr Hfuel Hrun. destruct (decide (valid s u)) as [Hu|Hu].
+  - assert (Hfu : nvars s - lvl_of s u < fuel) by lia.
+    pose proof (quantify_rec_spec fuel s u (sorted_levels q) q fa ∅ r s' HI Hu Hnr
+                  (ord_ok_sorted_levels s u q) (Quantify.cache_ok_empty s q fa) Hfu Hrun)
+      as (?&?&?&_).
+    split; [done|split; [done|split; [done|]]]. intros L HL.
+    by apply (Dynamic.quantify_rec_counts fuel s L u (sorted_levels q) q fa ∅ r s' HI HL Hu Hnr
+                (ord_ok_sorted_levels s u q) (Quantify.cache_ok_empty s q fa) Hfu Hrun).
+  - destruct fuel as [|f]; [lia|]. cbn [quantify_rec] in Hrun.
+    rewrite decide_False in Hrun by (by apply (junk_not_terminal s)).
+    rewrite lookup_empty in Hrun.
+    rewrite (bind_err _ _ _ _ _ (getsuccZ_junk s u Hu)) in Hrun.
+    injection Hrun as <- <-. by apply safe_refl.
+Qed.
+
+Lemma csafe_quantify_body u bn qvars fa :
+  csafe (q <- map_to_level_set bn qvars ;; s <- get ;;
+         r <- quantify_rec (S (S (nvars s))) u (sorted_levels q) q fa ∅ ;; ret (fst r)).
+Proof.
+  apply csafe_bind; [apply csafe_pure, pure_map_to_level_set|intros q].
+  apply csafe_bind_get. intros s r s' HI Hl H.
+  apply bind_fst_state in H as [r0 H].
+  apply (quantify_rec_total_nr s u q fa (S (S (nvars s))) r0 s'); try done. lia.
+Qed.
+Lemma csafe_quantify u bn qvars fa : csafe (quantify u bn qvars fa).
+Proof. apply csafe_try_to_reorder; [apply nrf_quantify_body|apply csafe_quantify_body]. Qed.
+
+Lemma csafe_cofactor_body u bn values :
+  csafe (lv <- map_to_level_dict bn values ;; s <- get ;;
+         ensure EValue (mem u s) ;;;
+         r <- cofactor_rec (S (S (nvars s))) u (sorted_levels (dom lv)) lv ∅ ;; ret (fst r)).
+Proof.
+  apply csafe_bind; [apply csafe_pure, pure_map_to_level_dict|intros lv].
+  apply csafe_bind_get. intros s r s' HI Hl H.
+  destruct (mem u s) eqn:Hm; cbn [ensure] in H; cycle 1.
+  { injection H as <- <-. by apply safe_refl. }
+  apply mem_valid in Hm. rewrite (bind_ok _ _ s tt s) in H by done.
+  apply bind_fst_state in H as [r0 H].
+  assert (Hord : Cofactor.ord_ok s u (sorted_levels (dom lv)) lv).
+  { intros k Hk _. apply elem_of_sorted_levels. by apply elem_of_dom. }
+  assert (Hfu : nvars s - lvl_of s u < S (S (nvars s))) by lia.
+  pose proof (cofactor_rec_aux _ s u _ lv ∅ r0 s' HI Hm Hord
+                (Cofactor.cache_ok_empty s lv) Hfu H) as (?&?&?&_).
+  split; [done|split; [done|split; [done|]]]. intros L HL.
+  by apply (Dynamic.cofactor_rec_counts _ s L u _ lv ∅ r0 s' HI HL Hm Hord
+              (Cofactor.cache_ok_empty s lv) Hfu H).
+Qed.
+
+Lemma compose_rec_total_nr s f_ j g r s' :
+  Inv s → no_reorder s →
+  compose_rec (S (S (2 * nvars s))) f_ j g ∅ s = (r, s') → safe s s'.
+Proof.
+  intros HI Hl Hrun.
+  destruct (decide (valid s f_)) as [Hf|Hf]; cycle 1.
+  { cbn [compose_rec] in Hrun.
+    rewrite decide_False in Hrun by (by apply (junk_not_terminal s)).
+    rewrite lookup_empty in Hrun.
+    rewrite (bind_err _ _ _ _ _ (getsuccZ_junk s f_ Hf)) in Hrun.
+    injection Hrun as <- <-. by apply safe_refl. }
+  destruct (decide (valid s g)) as [Hg|Hg].
+  { pose proof (compose_rec_aux _ s f_ j g ∅ r s' HI Hf Hg Hl (cache_ok_c_empty s j)
+                  (compose_fuel_ok s f_ g) Hrun) as (?&?&?&_).
+    split; [done|split; [done|split; [done|]]]. intros L HL.
+    by apply (compose_rec_counts_nr _ s L f_ j g ∅ r s' HI HL Hf Hg Hl
+                (cache_ok_c_empty s j) (compose_fuel_ok s f_ g) Hrun). }
+  cbn [compose_rec] in Hrun.
+  destruct (decide (absn f_ = 1%positive ∧ f_ ≠ 0%Z)) as [_|Hnt].
+  { injection Hrun as <- <-. by apply safe_refl. }
+  rewrite lookup_empty in Hrun.
+  destruct (node_cases s HI f_ Hf) as [[E El]|(t&Ht&Hn1&Hlo&_)].
+  { exfalso. apply Hnt. split; [done|apply Hf]. }
+  rewrite (bind_ok _ _ _ _ _ (getsuccZ_ok s f_ t (proj1 Hf) Ht)) in Hrun.
+  unfold is_term, assert in Hrun. rewrite bool_decide_eq_false_2 in Hrun by done.
+  cbn [negb] in Hrun. rewrite (bind_ok _ _ s tt s) in Hrun by done.
+  destruct (decide (j < t_lvl t)) as [Hji|Hji].
+  { injection Hrun as <- <-. by apply safe_refl. }
+  destruct (decide (t_lvl t = j)) as [Eij|Hij].
+  - rewrite bind_assoc in Hrun.
+    destruct (ite g (t_hi t) (t_lo t) s) as [rw s1] eqn:Ew.
+    pose proof (csafe_ite _ _ _ _ _ _ HI Hl Ew) as Hs1.
+    destruct rw as [w|e].
+    + rewrite (bind_ok _ _ _ _ _ Ew) in Hrun. cbn [bind ret] in Hrun. by injection Hrun as <- <-.
+    + rewrite (bind_err _ _ _ _ _ Ew) in Hrun. by injection Hrun as <- <-.
+  - rewrite bind_assoc in Hrun.
+    rewrite (bind_err _ _ _ _ _ (level_of_junk s g Hg)) in Hrun.
+    injection Hrun as <- <-. by apply safe_refl.
+Qed.
+
+Lemma csafe_compose_body f_ var_sub : csafe (compose_body f_ var_sub).
+Proof.
+  apply csafe_bind_get. intros s r s' HI Hl. cbv zeta.
+  assert (Hvec : ∀ l : list (nat * Z), csafe (
+      dv <- mapM (fun '(var, g) => l <- level_of_var var ;; ret (l, g)) l ;;
+      r <- vector_compose_rec (S (S (2 * nvars s))) f_ (list_to_map (reverse dv)) ∅ ;;
+      ret (fst r))).
+  { intros l. csafe. apply csafe_vector_compose_rec. }
+  destruct var_sub as [|[var g] [|xg rest]]; [by apply Hvec| |by apply Hvec].
+  intros H. destruct (level_of_var var s) as [rj s1] eqn:Ej.
+  pose proof (pure_level_of_var _ _ _ _ Ej) as ->.
+  destruct rj as [j|e].
+  - rewrite (bind_ok _ _ _ _ _ Ej) in H. apply bind_fst_state in H as [r0 H].
+    by apply (compose_rec_total_nr s f_ j g r0 s').
+  - rewrite (bind_err _ _ _ _ _ Ej) in H. injection H as <- <-. by apply safe_refl.
+Qed.
+
+Lemma csafe_apply_with tbl op u v w : csafe (apply_with tbl op u v w).
+Proof.
+  unfold apply_with.
+  csafe; first [apply csafe_ite | apply csafe_pure, pure_support | apply csafe_quantify].
+Qed.
+Lemma csafe_cube_body dvars : csafe (foldM cube_step 1%Z dvars).
+Proof.
+  apply csafe_foldM. intros r [v b]. unfold cube_step.
+  csafe; [apply csafe_var|apply csafe_apply_with].
+Qed.
+
+(** *** top-level computations (depth 0), requests possibly ON *)
+Definition dpost {A} (L : positive → nat) (s : st) (r : res A) (s' : st) : Prop :=
+  Inv s' ∧ Counts s' L ∧ rctx s' = false ∧ tape s' = [] ∧
+  (last_len s = None → last_len s' = None) ∧
+  (is_Some (last_len s) → is_Some (last_len s')) ∧
+  keeps (heldn L) s s' ∧
+  r ≠ Err ENeedsReordering ∧ r ≠ Err EOracle.
+Definition dsafe {A} (m : MS A) : Prop :=
+  ∀ s L r s', Inv s → Counts s L → rctx s = false → tape s = [] →
+    m s = (r, s') → dpost L s r s'.
+
+Lemma dsafe_quiet {A} (m : MS A) : quiet m → dsafe m.
+Proof.
+  intros Hq s L r s' HI HC Hc Ht H. destruct (Hq _ _ _ H) as (->&?&?).
+  split_and!; try done. by apply keeps_extends.
+Qed.
+Lemma dsafe_bind {A B} (m : MS A) (f : A → MS B) :
+  dsafe m → (∀ a, dsafe (f a)) → dsafe (bind m f).
+Proof.
+  intros Hm Hf s L r s' HI HC Hc Ht. unfold bind. destruct (m s) as [[a|e] s1] eqn:E.
+  - destruct (Hm _ _ _ _ HI HC Hc Ht E) as (HI1&HC1&Hc1&Ht1&Hn1&Hs1&Hk1&_&_). intros H2.
+    destruct (Hf a _ _ _ _ HI1 HC1 Hc1 Ht1 H2) as (?&?&?&?&Hn2&Hs2&Hk2&?&?).
+    split_and!; try done; [by intros ?; apply Hn2, Hn1|by intros ?; apply Hs2, Hs1|].
+    by apply (keeps_trans (heldn L) (heldn L) s s1 s').
+  - intros [= <- <-].
+    destruct (Hm _ _ _ _ HI HC Hc Ht E) as (?&?&?&?&?&?&?&H1&H2).
+    split_and!; try done; [intros [= ->]; by apply H1|intros [= ->]; by apply H2].
+Qed.
+
+(** the decorator for ARBITRARY arguments: whatever the outcome of the
+    wrapped operation (success, rejection before or after the retry), the
+    manager stays well formed with the same ledger, held references keep
+    number and function, requests stay enabled/disabled, and neither the
+    signal nor (with an empty tape) the oracle error reaches the caller *)
+Theorem try_to_reorder_total {A} (func : MS A) :
+  nrf func → nt func → csafe func → dsafe (try_to_reorder func).
+Proof.
+  intros Hn Hnt Hcs s L r s' HI HC Hc Ht Hrun.
+  destruct (nt_try_to_reorder func Hnt s r s' Ht Hrun) as [Ht' Hno].
+  revert Hrun. unfold try_to_reorder. cbn [bind get modify]. unfold bind at 1, catch at 1.
+  set (s0 := s <| rctx := true |>).
+  assert (HI0 : Inv s0) by (by apply Inv_rctx).
+  assert (HC0 : Counts s0 L) by (by apply (Counts_same s)).
+  destruct (func s0) as [r1 s1] eqn:E1.
+  pose proof (Hcs s0 r1 s1 HI0 (or_introl eq_refl) E1) as (HI1&He1&Hf1&HCs1).
+  pose proof (HCs1 L HC0) as HC1.
+  assert (He01 : extends s s1) by done.
+  assert (Hll1 : last_len s1 = last_len s) by (by destruct Hf1 as (?&_)).
+  cbn [bind modify]. rewrite Hc.
+  (* outcomes that do not start a reordering *)
+  assert (Hfirst : ∀ r0 : res A, r0 ≠ Err ENeedsReordering → r0 ≠ Err EOracle →
+            tape (s1 <| rctx := false |>) = [] →
+            dpost L s r0 (s1 <| rctx := false |>)).
+  { intros r0 H1 H2 Ht1.
+    assert (Hsame : same_tables s1 (s1 <| rctx := false |>)) by (by repeat split).
+    split; [by apply (Inv_same s1)|split; [by apply (Counts_same s1)|]].
+    split; [done|split; [done|]].
+    split; [intros E; cbn; congruence|split; [intros E; cbn; congruence|]].
+    split; [|done]. apply (keeps_same_r _ s s1); [done|]. by apply keeps_extends. }
+  destruct r1 as [a|e].
+  { unfold ret. intros [= <- <-]. by apply Hfirst. }
+  case_decide as Hd; cycle 1.
+  { unfold raise. intros [= <- <-]. apply Hfirst; [|done|done].
+    intros [= ->]. by apply Hd. }
+  destruct Hd as [-> _].
+  (* the signal: requests were on *)
+  assert (Hon : is_Some (last_len s)).
+  { destruct (last_len s) as [l|] eqn:El; [by eexists|]. exfalso.
+    assert (El0 : last_len s0 = None) by done.
+    by destruct (Hn s0 _ s1 El0 E1) as [_ ?]. }
+  cbn [bind modify].
+  set (s2 := s1 <| rctx := false |> <| last_len := None |>).
+  assert (Hsame2 : same_tables s1 s2) by (by repeat split).
+  assert (HI2 : Inv s2) by (by apply (Inv_same s1)).
+  assert (HC2 : Counts s2 L) by (by apply (Counts_same s1)).
+  assert (Hk2 : keeps (heldn L) s s2) by (by apply keeps_extends).
+  destruct (reorder None s2) as [r3 s3] eqn:E3.
+  destruct (sifting_ok'_holds s2 L r3 s3 HI2 HC2 eq_refl E3)
+    as [->|(->&HI3&HC3&Hll3&Hr3&Hk3)].
+  { rewrite (bind_err _ _ _ _ _ E3). intros [= <- <-]. done. }
+  rewrite (bind_ok _ _ _ _ _ E3). cbn [bind get modify].
+  unfold bind at 1, catch at 1.
+  set (s3' := s3 <| rctx := true |>).
+  assert (HI3' : Inv s3') by (by apply Inv_rctx).
+  assert (HC3' : Counts s3' L) by (by apply (Counts_same s3)).
+  assert (Hk3' : keeps (heldn L) s s3').
+  { apply (keeps_same_r _ s s3); [by repeat split|].
+    by apply (keeps_trans (heldn L) (heldn L) s s2 s3). }
+  destruct (func s3') as [r4 s4] eqn:E4.
+  pose proof (Hcs s3' r4 s4 HI3' (or_introl eq_refl) E4) as (HI4&He4&Hf4&HCs4).
+  pose proof (HCs4 L HC3') as HC4.
+  assert (Hll3' : last_len s3' = None) by done.
+  destruct (Hn s3' r4 s4 Hll3' E4) as [_ Hr4].
+  cbn [bind modify].
+  set (sF := s4 <| rctx := rctx s3 |> <| last_len := _ |>).
+  assert (HsameF : same_tables s4 sF) by (by repeat split).
+  intros Hrun.
+  assert (Es' : s' = sF) by (destruct r4; cbn [reraise] in Hrun; by injection Hrun).
+  assert (Er : ∀ e, r = Err e → r4 = Err e)
+    by (intros e ->; destruct r4; cbn [reraise] in Hrun; [done|by injection Hrun as ->]).
+  subst s'.
+  split; [by apply (Inv_same s4)|split; [by apply (Counts_same s4)|]].
+  split; [cbn; by rewrite Hr3|split; [done|]].
+  split; [intros E; destruct Hon as [l Hl]; congruence|].
+  split; [intros _; by eexists|].
+  split.
+  - apply (keeps_same_r _ s s4); [done|].
+    apply (keeps_trans (heldn L) (heldn L) s s3' s4); [done|done|]. by apply keeps_extends.
+  - split; [|done]. intros E. apply Hr4. by rewrite (Er _ E).
+Qed.
+
+(** *** the public operations *)
+Lemma dsafe_ite g u v : dsafe (ite g u v).
+Proof. apply try_to_reorder_total; [apply nrf_ite_|apply nt_ite_|apply csafe_ite_]. Qed.
+Lemma dsafe_var name : dsafe (var name).
+Proof.
+  unfold var. apply try_to_reorder_total.
+  - nrf. apply nrf_find_or_add.
+  - ntx.
+  - csafe. apply csafe_find_or_add_var.
+Qed.
+Lemma dsafe_quantify u bn qvars fa : dsafe (quantify u bn qvars fa).
+Proof.
+  unfold quantify. apply try_to_reorder_total.
+  - apply nrf_quantify_body.
+  - ntx; [apply nt_map_to_level_set|apply nt_quantify_rec].
+  - apply csafe_quantify_body.
+Qed.
+Lemma dsafe_cofactor u bn values : dsafe (cofactor u bn values).
+Proof.
+  unfold cofactor. apply try_to_reorder_total.
+  - apply nrf_cofactor_body.
+  - ntx; [apply nt_map_to_level_dict|apply nt_cofactor_rec].
+  - apply csafe_cofactor_body.
+Qed.
+Lemma dsafe_compose f_ var_sub : dsafe (compose f_ var_sub).
+Proof.
+  change (compose f_ var_sub) with (try_to_reorder (compose_body f_ var_sub)).
+  apply try_to_reorder_total.
+  - apply nrf_compose_body.
+  - unfold compose_body. ntx; first [apply nt_compose_rec | apply nt_vector_compose_rec].
+  - apply csafe_compose_body.
+Qed.
+Lemma dsafe_rename u dvars : dsafe (rename u dvars).
+Proof.
+  apply try_to_reorder_total; [apply nrf_rename_|apply nt_rename_|apply csafe_rename_].
+Qed.
+Lemma dsafe_cube dvars : dsafe (cube dvars).
+Proof.
+  change (cube dvars) with (try_to_reorder (foldM cube_step 1%Z dvars)).
+  apply try_to_reorder_total.
+  - unfold cube_step. nrf; [apply nrf_var|apply nrf_apply].
+  - unfold cube_step. ntx; [apply nt_var|apply nt_apply].
+  - apply csafe_cube_body.
+Qed.
+
+Ltac dsafe_step :=
+  lazymatch goal with
+  | |- dsafe (ret _) => apply dsafe_quiet, quiet_ret
+  | |- dsafe (raise _) => apply dsafe_quiet, quiet_raise; discriminate
+  | |- dsafe get => apply dsafe_quiet, quiet_get
+  | |- dsafe (ensure _ _) => apply dsafe_quiet, quiet_ensure; discriminate
+  | |- dsafe (bind _ _) => apply dsafe_bind; [|intros ?]
+  | |- dsafe (if ?b then _ else _) => destruct b
+  | |- dsafe (match ?x with _ => _ end) => destruct x
+  end.
+Ltac dsafe := repeat first [assumption | dsafe_step].
+
+Lemma dsafe_apply_with tbl op u v w : dsafe (apply_with tbl op u v w).
+Proof.
+  unfold apply_with.
+  dsafe; first [apply dsafe_ite | apply dsafe_quiet, quiet_support | apply dsafe_quantify].
+Qed.
+Lemma dsafe_apply op u v w : dsafe (apply op u v w).
+Proof. apply dsafe_apply_with. Qed.
+Lemma dsafe_let d u : dsafe (let_ d u).
+Proof.
+  unfold let_. destruct d as [[|]|[|]|[|]]; try apply dsafe_quiet, quiet_ret;
+    [apply dsafe_cofactor|apply dsafe_compose|apply dsafe_rename].
+Qed.
